@@ -3,6 +3,7 @@ import Sheens.Driver.Engine
 import Sheens.Driver.Crew
 import Sheens.Driver.MCrew
 import Sheens.Driver.Timers
+import Sheens.Driver.Expect
 
 /-! `driver`: one JSON op per line in, one JSON verdict line out. -/
 
@@ -16,6 +17,7 @@ def dispatch (j : Json) : Json :=
   | "crew" => Driver.handleCrew j
   | "mcrew" => Driver.handleMCrew j
   | "timers" => Driver.handleTimers j
+  | "expect" => Driver.handleExpect j
   | op => Json.mkObj [("error", Json.str ("unknown op " ++ op))]
 
 partial def loop (hin : IO.FS.Stream) (hout : IO.FS.Stream) : IO Unit := do
